@@ -1017,7 +1017,9 @@ def step_svd(ctx, cmd, ans, post):
             return True
         if a.defined():
             A1 = a.val[:Mr, :Nc]
-            r, kappa, unamb = rank_info(A1)
+            # GSO scales every column of A1 to unit length first: the rank it sees is that of the scaled block
+            nrm = np.sqrt(np.sum(A1 * A1, axis=0))
+            r, kappa, unamb = rank_info(A1 / np.where(nrm > 0, nrm, 1.0))
             if unamb and kappa <= 1e3 and np.all(np.isfinite(act.val)):
                 if ans.get("defect") != Nc - r:
                     ctx.fail(T(tag, "defect"), "defect %s, rank %d of %d columns" % (ans.get("defect"), r, Nc))
@@ -1847,7 +1849,7 @@ def replay_exhaustive(case, stats):
 
 PARTS = [
     Part("machine", strategy=machine, oracle=oracle, nontrivial=nontrivial,
-         n={"quick": 2400, "thorough": 48000},
+         n={"quick": 6000, "thorough": 60000},
          sample=lambda c: {"cmds": [[x if not isinstance(x, list) else x[:12] for x in cmd] for cmd in c["cmds"][:40]]}),
     Part("exhaustive", custom=exhaustive, workers=16, n={"quick": 1, "thorough": 1}),
 ]
